@@ -1,5 +1,6 @@
 import GnpyModel
 import GnpyProofs.Lemmas.Fiber
+import GnpyProofs.Lemmas.Raman
 /- Property theorems for C05 — fibre spans apply exactly their loss budget and accumulate CD, PMD, PDL, latency.
    Model: GnpyModel/Fiber.lean (+ Gn.lean for the loss coefficient).  All statements over ℝ. -/
 namespace Gnpy.Fiber
@@ -177,3 +178,254 @@ example : [lumpedContribution (1:ℝ) 2, fibreContribution 1 0 1 1 1 1].Perm
     [fibreContribution 1 0 1 1 1 1, lumpedContribution (1:ℝ) 2] := List.Perm.swap _ _ _
 
 end Gnpy.Fiber
+
+/-! ## Raman on: the unidirectional solver (model: namespace Gnpy.Raman in GnpyModel/Fiber.lean)
+
+What is a theorem here: with zero Raman efficiency the explicit-Euler method is the plain attenuation law of the grid
+(`euler_zero_cr`), which lies within `2 α² Σ Δz²` Neper of the exact budget (`eulerFactor_bounds`: the tolerance of
+the monitor's low-power and method-agreement checks); the perturbative exponent of order 1–4 is exactly `−α z` on every
+interval between lumped losses (`perturbative_zero_cr`); the order-1 term is linear in the launch powers
+(`perturbative_low_power`: at power scale `t → 0` the no-Raman loss remains) and non-negative for waves with
+non-negative Raman efficiency onto the channel, e.g. pumps above the signal (`counterprop_gain_only_partial`).
+NOT theorems (monitor only, see PARTIAL in harness/props/c05.py): `raman_methods_agree_partial` — "perturbative and
+numerical agree" is a numerical-analysis statement with a resolution- and power-dependent error; the iterative
+co/counter-propagating algorithm and the full-order gain-only statement. -/
+namespace Gnpy.Raman
+
+/-- **explicit Euler, zero Raman efficiency**: the last column of the power profile is, on every frequency,
+`p · Π_k (1 − α Δz_k) · lumped_k` – each lumped loss of the grid exactly once -/
+theorem euler_zero_cr (alpha : List ℝ) (cr : List (List ℝ)) (hz : MZero cr) :
+    ∀ (grid : List (ℝ × ℝ)) (p : List ℝ), cr.length = p.length → alpha.length = p.length →
+      ∃ init, euler alpha cr p grid = init ++ [scaleBy (fun a => eulerFactor a grid) p alpha] := by
+  intro grid
+  induction grid with
+  | nil =>
+    intro p _ h2
+    exact ⟨[], by simp [euler, eulerFactor, scaleBy_one p alpha h2.symm]⟩
+  | cons g0 rest ih =>
+    intro p h1 h2
+    cases rest with
+    | nil => exact ⟨[], by simp [euler, eulerFactor, scaleBy_one p alpha h2.symm]⟩
+    | cons g1 rest' =>
+      simp only [euler, eulerStep]
+      rw [eulerStepGo_zero p (g1.1 - g0.1) g0.2 p alpha cr hz h1]
+      have hl := plainStep_length (g1.1 - g0.1) g0.2 p alpha h2.symm
+      obtain ⟨init, hinit⟩ := ih (plainStep (g1.1 - g0.1) g0.2 p alpha) (by rw [hl]; exact h1) (by rw [hl]; exact h2)
+      refine ⟨p :: init, ?_⟩
+      rw [hinit, scaleBy_plainStep]
+      simp only [List.cons_append, eulerFactor]
+
+/-- what the grid spans, the sum of its squared steps, the product of its lumped losses -/
+def gridSpan : List (ℝ × ℝ) → ℝ
+  | g0 :: g1 :: rest => (g1.1 - g0.1) + gridSpan (g1 :: rest)
+  | _ => 0
+def gridSq : List (ℝ × ℝ) → ℝ
+  | g0 :: g1 :: rest => (g1.1 - g0.1) ^ 2 + gridSq (g1 :: rest)
+  | _ => 0
+def gridLoss : List (ℝ × ℝ) → ℝ
+  | g0 :: g1 :: rest => g0.2 * gridLoss (g1 :: rest)
+  | _ => 1
+/-- every step is resolved (`0 ≤ α Δz ≤ 1/2`) and every lumped factor is positive -/
+def GridOk (a : ℝ) : List (ℝ × ℝ) → Prop
+  | g0 :: g1 :: rest => 0 ≤ a * (g1.1 - g0.1) ∧ a * (g1.1 - g0.1) ≤ 1 / 2 ∧ 0 < g0.2 ∧ GridOk a (g1 :: rest)
+  | _ => True
+
+theorem gridLoss_pos (a : ℝ) : ∀ (grid : List (ℝ × ℝ)), GridOk a grid → 0 < gridLoss grid := by
+  intro grid
+  induction grid with
+  | nil => intro _; simp [gridLoss]
+  | cons g0 rest ih =>
+    intro h
+    cases rest with
+    | nil => simp [gridLoss]
+    | cons g1 rest' =>
+      simp only [GridOk] at h
+      simp only [gridLoss]
+      exact mul_pos h.2.2.1 (ih h.2.2.2)
+
+/-- **explicit Euler vs the exact attenuation law**: on a resolved grid the Euler factor lies between
+`exp(−αL − 2α² Σ Δz²) · Π lumped` and `exp(−αL) · Π lumped`: in dB the numerical method over-estimates the loss budget by
+at most `2 · (10/ln 10) · α² · Σ Δz²` (this is the tolerance the monitor uses for the low-power limit) -/
+theorem eulerFactor_bounds (a : ℝ) : ∀ (grid : List (ℝ × ℝ)), GridOk a grid →
+    Real.exp (-(a * gridSpan grid) - 2 * a ^ 2 * gridSq grid) * gridLoss grid ≤ eulerFactor a grid ∧
+    eulerFactor a grid ≤ Real.exp (-(a * gridSpan grid)) * gridLoss grid := by
+  intro grid
+  induction grid with
+  | nil => intro _; simp [gridSpan, gridSq, gridLoss, eulerFactor]
+  | cons g0 rest ih =>
+    intro h
+    cases rest with
+    | nil => simp [gridSpan, gridSq, gridLoss, eulerFactor]
+    | cons g1 rest' =>
+      simp only [GridOk] at h
+      obtain ⟨h0, h1, hl, hrest⟩ := h
+      obtain ⟨lo, hi⟩ := ih hrest
+      have hG := gridLoss_pos a (g1 :: rest') hrest
+      have hb := one_sub_bounds (a * (g1.1 - g0.1)) h0 h1
+      simp only [gridSpan, gridSq, gridLoss, eulerFactor]
+      set x := a * (g1.1 - g0.1) with hx
+      set F := eulerFactor a (g1 :: rest') with hF
+      set G := gridLoss (g1 :: rest') with hGd
+      set S := gridSpan (g1 :: rest') with hS
+      set Q := gridSq (g1 :: rest') with hQ
+      have hFpos : 0 ≤ F := le_trans (by positivity) lo
+      have h1x : 0 ≤ 1 - x := by linarith
+      constructor
+      · have e : Real.exp (-(a * ((g1.1 - g0.1) + S)) - 2 * a ^ 2 * ((g1.1 - g0.1) ^ 2 + Q)) * (g0.2 * G)
+            = (Real.exp (-x - 2 * x ^ 2) * g0.2) * (Real.exp (-(a * S) - 2 * a ^ 2 * Q) * G) := by
+          rw [show -(a * ((g1.1 - g0.1) + S)) - 2 * a ^ 2 * ((g1.1 - g0.1) ^ 2 + Q)
+              = (-x - 2 * x ^ 2) + (-(a * S) - 2 * a ^ 2 * Q) by rw [hx]; ring, Real.exp_add]
+          ring
+        rw [e]
+        apply mul_le_mul _ lo (by positivity) (mul_nonneg h1x (le_of_lt hl))
+        exact mul_le_mul_of_nonneg_right hb.1 (le_of_lt hl)
+      · have e : Real.exp (-(a * ((g1.1 - g0.1) + S))) * (g0.2 * G)
+            = (Real.exp (-x) * g0.2) * (Real.exp (-(a * S)) * G) := by
+          rw [show -(a * ((g1.1 - g0.1) + S)) = -x + -(a * S) by rw [hx]; ring, Real.exp_add]
+          ring
+        rw [e]
+        apply mul_le_mul _ hi hFpos (by positivity)
+        exact mul_le_mul_of_nonneg_right hb.2 (le_of_lt hl)
+
+/-- **perturbative method, zero Raman efficiency**: for every implemented order the exponent on an interval is
+exactly `−α z`: the plain attenuation law -/
+theorem perturbative_zero_cr (order : Nat) (ho : order ≤ 4) (alpha : List ℝ) (cr : List (List ℝ)) (p0 zs : List ℝ)
+    (hz : MZero cr) (hl : cr.length = alpha.length) (hzs : zs ≠ []) :
+    expoInterval order alpha cr p0 zs = expo0 alpha zs := by
+  have hcrp := mzero_crpM cr p0 hz
+  have hlen0 : (expo0 alpha zs).length = alpha.length := by simp [expo0, alphazM]
+  have hlenx : (expzM alpha zs).length = alpha.length := by simp [expzM, alphazM]
+  have hr0 := rect_expo0 alpha zs
+  -- first order
+  have z1 : ZeroRect zs.length (gamma1 alpha cr p0 zs) := zeroRect_crTimes _ _ _ hcrp (rect_effLenM alpha zs)
+  have l1 : (gamma1 alpha cr p0 zs).length = alpha.length := by simp [gamma1, crTimes, crpM, hl]
+  have e1 : madd (expo0 alpha zs) (gamma1 alpha cr p0 zs) = expo0 alpha zs :=
+    madd_zeroRect _ _ _ (by rw [hlen0, l1]) hr0 z1
+  -- second order
+  have r2 : Rect zs.length (((expzM alpha zs).zip (gamma1 alpha cr p0 zs)).map
+      (fun x => trapCum (vmul x.1 x.2) zs)) := by
+    intro r hr
+    simp only [List.mem_map] at hr
+    obtain ⟨⟨u, v⟩, huv, rfl⟩ := hr
+    have hm := List.of_mem_zip huv
+    have hu := rect_expzM alpha zs u hm.1
+    have hv := (z1 v hm.2).1
+    exact trapCum_length _ _ (by rw [vmul_length u v (by rw [hu, hv]), hu]) hzs
+  set g1 := gamma1 alpha cr p0 zs with hg1
+  set g2 := crTimes zs.length (crpM cr p0) (((expzM alpha zs).zip g1).map (fun x => trapCum (vmul x.1 x.2) zs))
+    with hg2
+  have z2 : ZeroRect zs.length g2 := zeroRect_crTimes _ _ _ hcrp r2
+  have l2 : g2.length = alpha.length := by simp [hg2, crTimes, crpM, hl]
+  have e2 : madd (expo0 alpha zs) g2 = expo0 alpha zs := madd_zeroRect _ _ _ (by rw [hlen0, l2]) hr0 z2
+  -- third order
+  have r3 : Rect zs.length (((expzM alpha zs).zip (g1.zip g2)).map (fun x =>
+      trapCum (vmul x.1 (vadd x.2.2 (vscale (((1:Nat):ℝ) / ((2:Nat):ℝ)) (vmul x.2.1 x.2.1)))) zs)) := by
+    intro r hr
+    simp only [List.mem_map] at hr
+    obtain ⟨⟨u, v, w⟩, huv, rfl⟩ := hr
+    have hm := List.of_mem_zip huv
+    have hm2 := List.of_mem_zip hm.2
+    have hu := rect_expzM alpha zs u hm.1
+    have hv := (z1 v hm2.1).1
+    have hw := (z2 w hm2.2).1
+    apply trapCum_length _ _ _ hzs
+    have a1 : (vmul v v).length = zs.length := by rw [vmul_length v v rfl, hv]
+    have a2 : (vadd w (vscale (((1:Nat):ℝ) / ((2:Nat):ℝ)) (vmul v v))).length = zs.length := by
+      rw [vadd_length _ _ (by rw [vscale_length, a1, hw]), hw]
+    rw [vmul_length _ _ (by rw [hu, a2]), hu]
+  set g3 := crTimes zs.length (crpM cr p0) (((expzM alpha zs).zip (g1.zip g2)).map (fun x =>
+      trapCum (vmul x.1 (vadd x.2.2 (vscale (((1:Nat):ℝ) / ((2:Nat):ℝ)) (vmul x.2.1 x.2.1)))) zs)) with hg3
+  have z3 : ZeroRect zs.length g3 := zeroRect_crTimes _ _ _ hcrp r3
+  have l3 : g3.length = alpha.length := by simp [hg3, crTimes, crpM, hl]
+  have e3 : madd (expo0 alpha zs) g3 = expo0 alpha zs := madd_zeroRect _ _ _ (by rw [hlen0, l3]) hr0 z3
+  -- fourth order
+  have r4 : Rect zs.length (((expzM alpha zs).zip (g1.zip (g2.zip g3))).map (fun x =>
+      trapCum (vmul x.1 (vadd (vadd x.2.2.2 (vmul x.2.1 x.2.2.1))
+        (vscale (((1:Nat):ℝ) / ((6:Nat):ℝ)) (vmul x.2.1 (vmul x.2.1 x.2.1))))) zs)) := by
+    intro r hr
+    simp only [List.mem_map] at hr
+    obtain ⟨⟨u, v, w, y⟩, huv, rfl⟩ := hr
+    have hm := List.of_mem_zip huv
+    have hm2 := List.of_mem_zip hm.2
+    have hm3 := List.of_mem_zip hm2.2
+    have hu := rect_expzM alpha zs u hm.1
+    have hv := (z1 v hm2.1).1
+    have hw := (z2 w hm3.1).1
+    have hy := (z3 y hm3.2).1
+    apply trapCum_length _ _ _ hzs
+    have a1 : (vmul v w).length = zs.length := by rw [vmul_length v w (by rw [hv, hw]), hv]
+    have a2 : (vadd y (vmul v w)).length = zs.length := by rw [vadd_length _ _ (by rw [a1, hy]), hy]
+    have a3 : (vmul v v).length = zs.length := by rw [vmul_length v v rfl, hv]
+    have a4 : (vmul v (vmul v v)).length = zs.length := by rw [vmul_length _ _ (by rw [a3, hv]), hv]
+    have a5 : (vadd (vadd y (vmul v w)) (vscale (((1:Nat):ℝ) / ((6:Nat):ℝ)) (vmul v (vmul v v)))).length
+        = zs.length := by rw [vadd_length _ _ (by rw [vscale_length, a4, a2]), a2]
+    rw [vmul_length _ _ (by rw [hu, a5]), hu]
+  set g4 := crTimes zs.length (crpM cr p0) (((expzM alpha zs).zip (g1.zip (g2.zip g3))).map (fun x =>
+      trapCum (vmul x.1 (vadd (vadd x.2.2.2 (vmul x.2.1 x.2.2.1))
+        (vscale (((1:Nat):ℝ) / ((6:Nat):ℝ)) (vmul x.2.1 (vmul x.2.1 x.2.1))))) zs)) with hg4
+  have z4 : ZeroRect zs.length g4 := zeroRect_crTimes _ _ _ hcrp r4
+  have l4 : g4.length = alpha.length := by simp [hg4, crTimes, crpM, hl]
+  have e4 : madd (expo0 alpha zs) g4 = expo0 alpha zs := madd_zeroRect _ _ _ (by rw [hlen0, l4]) hr0 z4
+  -- assemble
+  have hcases : order = 0 ∨ order = 1 ∨ order = 2 ∨ order = 3 ∨ order = 4 := by omega
+  rcases hcases with rfl | rfl | rfl | rfl | rfl
+  · simp [expoInterval]
+  · simp only [expoInterval, Nat.reduceEqDiff, ↓reduceIte]
+    rw [← hg1, e1]
+  · simp only [expoInterval, Nat.reduceEqDiff, ↓reduceIte]
+    rw [← hg1, e1, ← hg2, e2]
+  · simp only [expoInterval, Nat.reduceEqDiff, ↓reduceIte]
+    rw [← hg1, e1, ← hg2, e2, ← hg3, e3]
+  · simp only [expoInterval, Nat.reduceEqDiff, ↓reduceIte]
+    rw [← hg1, e1, ← hg2, e2, ← hg3, e3, ← hg4, e4]
+
+/-- **low-power limit of the perturbative method (order 1)**: with all launch powers scaled by `t` the exponent is
+`−α z + t · γ₁`; at `t = 0` it is the plain attenuation exponent -/
+theorem perturbative_low_power (alpha : List ℝ) (cr : List (List ℝ)) (p0 zs : List ℝ) (t : ℝ) :
+    expoInterval 1 alpha cr (vscale t p0) zs
+      = madd (expo0 alpha zs) ((gamma1 alpha cr p0 zs).map (vscale t)) ∧
+    (cr.length = alpha.length →
+      expoInterval 1 alpha cr (vscale 0 p0) zs = expo0 alpha zs) := by
+  constructor
+  · simp [expoInterval, gamma1_scale]
+  · intro hl
+    simp only [expoInterval]
+    simp only [Nat.succ_ne_zero, if_false, if_true, gamma1_scale]
+    apply madd_zeroRect zs.length
+    · simp [expo0, alphazM, gamma1, crTimes, crpM, hl]
+    · exact rect_expo0 alpha zs
+    · intro r hr
+      simp only [List.mem_map] at hr
+      obtain ⟨q, hq, rfl⟩ := hr
+      have hqlen : q.length = zs.length := rect_crTimes _ _ _ (rect_effLenM alpha zs) q hq
+      exact ⟨by rw [vscale_length, hqlen], vzero_vscale_of_zero 0 q rfl⟩
+
+/-- **sign of the first-order term** (partial form of "counter-propagating pumps only add gain"): when every wave has
+a non-negative Raman efficiency onto the channel of row `row` (e.g. pumps above the signal frequency: `cr ≥ 0`),
+positive loss coefficients, non-negative launch powers and positions, the first-order Raman term of that channel is
+non-negative along the whole interval – relative to plain attenuation the channel only gains.
+FULL STATEMENT (not a theorem here): with the counter-propagating pumps switched on, the power of every channel at the
+fibre end, as computed by `calculate_stimulated_raman_scattering` (iterative algorithm, any method/order/resolution), is
+at least the power computed with the pumps off.  Checked by the monitor only. -/
+theorem counterprop_gain_only_partial (alpha : List ℝ) (row p0 zs : List ℝ) (ha : ∀ a ∈ alpha, 0 < a)
+    (hz : ∀ z ∈ zs, 0 ≤ z) (hrow : ∀ c ∈ row, 0 ≤ c) (hp : ∀ x ∈ p0, 0 ≤ x) :
+    ∀ x ∈ rowTimes zs.length (vmul row p0) (effLenM alpha zs), 0 ≤ x :=
+  rowTimes_nonneg _ _ _ (vmul_nonneg row p0 hrow hp) (effLenM_nonneg alpha zs ha hz)
+
+/-- the same for the whole first-order matrix when all efficiencies are non-negative -/
+theorem gamma1_nonneg (alpha : List ℝ) (cr : List (List ℝ)) (p0 zs : List ℝ) (ha : ∀ a ∈ alpha, 0 < a)
+    (hz : ∀ z ∈ zs, 0 ≤ z) (hcr : ∀ row ∈ cr, ∀ c ∈ row, 0 ≤ c) (hp : ∀ x ∈ p0, 0 ≤ x) :
+    ∀ r ∈ gamma1 alpha cr p0 zs, ∀ x ∈ r, 0 ≤ x := by
+  intro r hr
+  simp only [gamma1, crTimes, crpM, List.map_map, List.mem_map, Function.comp] at hr
+  obtain ⟨row, hrow, rfl⟩ := hr
+  exact counterprop_gain_only_partial alpha row p0 zs ha hz (hcr row hrow) hp
+
+/-! ### non-vacuity -/
+example : MZero [[(0:ℝ), 0], [0, 0]] := by
+  intro r hr x hx; simp at hr; rcases hr with rfl | rfl <;> simpa using hx
+example : GridOk (46 / 1000000 : ℝ) [(0, 1), (1000, 1 / 2), (2000, 1)] := by
+  simp [GridOk]; norm_num
+example : ∀ a ∈ [(46 / 1000000 : ℝ)], 0 < a := by simp
+
+end Gnpy.Raman
